@@ -221,13 +221,17 @@ fn keep_double_minus_apart(unop: &UnOp, expression: Expression) -> Expression {
 
 /// A single line comment directly after a unary operator would comment out the operand if it stayed on the
 /// same line: the operand is moved onto a new line in that case.
+/// The same is done when a comment in front of the operand would be printed directly behind a minus: `-` and `-- comment`
+/// would otherwise join up into `--- comment`.
 fn move_operand_below_comment(
     ctx: &Context,
     unop: &UnOp,
     expression: Expression,
     shape: Shape,
 ) -> Expression {
-    if unop.token().has_trailing_comments(CommentSearch::Single) {
+    if unop.token().has_trailing_comments(CommentSearch::Single)
+        || (matches!(unop, UnOp::Minus(_)) && expression.has_leading_comments(CommentSearch::All))
+    {
         trivia_util::prepend_newline_indent(ctx, &expression, shape.increment_additional_indent())
     } else {
         expression
